@@ -46,6 +46,20 @@ Proof.
   unfold len in *. lia.
 Qed.
 
+(* every prefix of an execution - `it` completed main-loop iterations from the driver's initial state, having
+   executed `ks` kernel loop bodies - is within the same bounds, however the run ends (exit, or the clear
+   ValueError raised by a later chunk fetch) *)
+Theorem streamed_linear_work_prefix : forall lc rc it ks d',
+  fetch_chunk (v_ltrim (mkvar k is_left)) 0 cs L = Ok lc -> fetch_chunk (v_rtrim (mkvar k is_left)) 0 cs R = Ok rc ->
+  iters k is_left L R inv cs (init_drv cs lc rc) it ks d' ->
+  (it <= length L + length R + NSPEC)%nat /\ (ks <= 2 * (length L + length R + NSPEC) + it)%nat.
+Proof.
+  intros lc rc it ks d' El Er Hit.
+  pose proof (streamed_prefix_bound k is_left L R inv cs (KindOK_all k is_left L R inv cs Hpre Hcs) Hcs lc rc it ks d' El Er Hit)
+    as (H1 & H2).
+  unfold len in *. lia.
+Qed.
+
 End AllSteps.
 
 (* the instrumented driver is the model's driver with counters *)
